@@ -506,7 +506,7 @@ fn sweep(cs: &[Case], policy: Policy) -> Acc {
     par::sweep(
         total,
         256,
-        |_| Interp::new().expect("interpreter"),
+        |_| Interp::must_new(),
         |it, acc, i| {
             let c = &cs[i as usize];
             let rejected_before: usize = c.tags.iter().find_map(|t| t.strip_prefix("after-rejected-forms=").and_then(|n| n.parse().ok())).unwrap_or(0);
